@@ -207,6 +207,8 @@ TXNS = [
     {'description': 'SQ *COFFEE r4', 'amount': 12.0, 'date': '2025-02-01', 'field': None, 'source': 'Card'},
     {'description': 'RENT r5', 'amount': 1200.0, 'date': '2025-02-02', 'field': None, 'source': 'Bank'},
     {'description': 'netflix.com r7', 'amount': -15.99, 'date': '2025-04-05', 'field': {}, 'source': ''},
+    {'description': 'SQ *STARBUCK STARBUCKS RESERVE r8', 'amount': 4.75, 'date': '2025-03-09', 'field': {'kind': 'POS'}, 'source': 'Card'},
+    {'description': 'STARBUCKS r10', 'amount': 36.4, 'date': '2025-03-10', 'field': None, 'source': 'Card'},
 ]
 # 'date' values are ISO strings here and become date objects in the process (as load_supplemental_sources does);
 # one row keeps an unparseable date cell as a string, as the loader would
@@ -386,13 +388,85 @@ for _g in FILTER_GROUPS:
             FILTERS.append(_e)
 
 
+# calls of one function that differ in ONE argument (the optional threshold, the index, the replacement...): a memo keyed on
+# fewer arguments than the function takes answers the second call with the first call's result
+ARG_GROUPS = [
+    ['fuzzy("STARBUCKS")', 'fuzzy("STARBUCKS", 0.95)', 'fuzzy("STARBUCKS", 0.5)', 'fuzzy("STARBUCK")', 'fuzzy(description, "STARBUCKS", 0.99)'],
+    ['split(description, " ", 0)', 'split(description, " ", 1)', 'split(" ", 1)', 'split("*", 1)'],
+    ['substring(description, 0, 3)', 'substring(description, 0, 5)', 'substring(0, 3)', 'substring(1, 3)'],
+    ['regex_replace(description, "S", "x")', 'regex_replace(description, "S", "y")', 'regex_replace(description, "s", "x")'],
+    ['strip_prefix(description, "SQ *")', 'strip_prefix(description, "SQ")', 'strip_suffix(description, "r8")', 'strip_suffix(description, "r10")'],
+    ['extract(description, "(S\\w+)")', 'extract("(S\\w+)")', 'extract(source, "(C\\w+)")'],
+    ['contains(description, "STAR")', 'contains(source, "STAR")', 'contains("STAR")', 'startswith(description, "SQ")', 'startswith("SQ")', 'startswith(source, "SQ")'],
+    ['normalized("STARBUCKS")', 'normalized("STAR BUCKS")', 'anyof("STARBUCKS", "COFFEE")', 'anyof("COFFEE", "STARBUCKS")', 'anyof("COFFEE")'],
+    ['trim(description)', 'trim(source)', 'uppercase(source)', 'uppercase(description)', 'lowercase(description)'],
+]
+# every kind of syntax node, on the transaction side and on the view side: what one evaluator learns about a node kind
+# (allowed or not, handled or not) is nobody else's business
+NODE_EXPRS = ['[r.item for r in orders][0] == "Dinner"', 'sum(r.amount for r in orders) > 1', 'orders[0].amount > 1', 'description[0] == "N"',
+              '(z := amount) > 5 and z < 100', 'txn.amount > 5', 'description in ("UBER", "LYFT")', 'amount in {1, 2}', 'description[0:3] == "UBE"',
+              'amount // 10 == 1', 'amount ** 2 > 4', '1 if amount > 5 else 0', '-amount < 0', '+amount > 0', 'not amount', 'amount is None',
+              'f"{amount}" == "1"', '{"a": 1}["a"] == 1', 'lambda: 1', '~1 == -2', 'amount | 1', '[*orders]', 'len(orders) > 1',
+              'any(r.amount > 20 for r in orders)', '{r.item for r in orders}', '{r.item: 1 for r in orders}']
+NODE_FILTERS = ['[p for p in payments][0] > 1', 'sum(p for p in payments) > 0', 'payments[0] > 1', '(z := total) > 1', 'category in ("Food", "Housing")',
+                'total in {1, 2}', 'payments[0:1]', 'total // 10 > 1', 'total ** 2 > 4', '1 if total > 5 else 0', '-total < 0', '+total > 0', 'tags.count',
+                'category[0] == "F"', 'f"{total}"', 'lambda: 1', 'total is None', 'not total', 'any(p > 10 for p in payments)', 'len(payments) > 1',
+                '{p for p in payments}', '~1 == -2']
+NODE_VIEWS = ['[Tuple]\nfilter: category in ("Food", "Housing")\n', '[Comp]\nfilter: sum(p for p in payments) > 0\n\n[Sub]\nfilter: payments[0] > 1\n',
+              '[Walrus]\nfilter: (z := total) > 1\n\n[Attr]\nfilter: tags.count\n', '[Cond]\nfilter: 1 if total > 5 else 0\n\n[Pow]\nfilter: total ** 2 > 4\n',
+              'lim = [p for p in payments]\n\n[V]\nfilter: len(lim) > 0\n']
+NODE_RULES = {'n1.rules': '[T]\nmatch: description in ("NETFLIX", "HULU")\ncategory: X\nsubcategory: Y\n',
+              'n2.rules': '[S]\nmatch: description[0:3] == "UBE"\ncategory: X\nsubcategory: Y\n',
+              'n3.rules': '[C]\nmatch: len([r for r in orders if r.amount > 1]) > 0\ncategory: X\nsubcategory: Y\ntags: {orders[0].item}, {amount // 10}\n',
+              'n4.rules': '[W]\nlet: z = (q := amount)\nmatch: z > 5 and contains("UBER")\ncategory: X\nsubcategory: Y\nfield: first = description[0]\n',
+              'n5.rules': 'v = 1 if amount > 5 else 0\n\n[I]\nmatch: v == 1 and -amount < 0\ncategory: X\nsubcategory: Y\ntags: {lambda: 1}, {amount ** 2}\n'}
+for _g in ARG_GROUPS:
+    COLLISION_GROUPS.append(_g)
+    for _e in _g:
+        if _e not in EXPRS:
+            EXPRS.append(_e)
+for _e in NODE_EXPRS:
+    if _e not in EXPRS:
+        EXPRS.append(_e)
+for _e in NODE_FILTERS:
+    if _e not in FILTERS:
+        FILTERS.append(_e)
+VIEWS_TEXTS.extend(NODE_VIEWS)
+
+
+def gen_cross_history(rng):
+    """View-side and transaction-side work interleaved in one process, over every kind of syntax node."""
+    ops = [{'op': 'FILES', 'files': dict(NODE_RULES)}]
+    star = [j for j, t in enumerate(TXNS) if 'STARBUCK' in t['description'] or 'UBER' in t['description']]
+    for _ in range(rng.randint(6, 18)):
+        r = rng.random()
+        if r < 0.2:
+            ops.append({'op': 'VIEWS', 'text': VIEWS_TEXTS.index(rng.choice(NODE_VIEWS))})
+        elif r < 0.4:
+            ops.append({'op': 'FILTER', 'expr': FILTERS.index(rng.choice(NODE_FILTERS)), 'm': rng.randrange(len(MERCHANT_TXNS))})
+        elif r < 0.65:
+            ops.append({'op': 'EVAL', 'expr': EXPRS.index(rng.choice(NODE_EXPRS)), 'txn': rng.randrange(len(TXNS)), 'rows': rng.random() < 0.8})
+        elif r < 0.8:
+            ops.append({'op': 'LOAD', 'path': rng.choice(sorted(NODE_RULES)), 'mode': rng.choice(['first_match', 'most_specific'])})
+        elif r < 0.9:
+            ops.append({'op': 'CLASSIFY', 'txn': rng.choice(star), 'rows': rng.random() < 0.8, 'transforms': True})
+        else:
+            ops.append({'op': 'ENGINE', 'id': 0, 'text': 0, 'mode': 'first_match', 'gen': rng.choice(sorted(NODE_RULES.values()))})
+    return ops
+
+
 def gen_expr_history(rng):
     """Members of a few collision groups evaluated back to back, in both orders, on a few transactions."""
     ops = []
     for _ in range(rng.randint(2, 4)):
         if rng.random() < 0.75:
-            g = rng.choice(COLLISION_GROUPS)
-            txns = [rng.randrange(len(TXNS)) for _ in range(2)]
+            if rng.random() < 0.4:
+                # one function, one argument varied - on the transactions these calls tell apart
+                g = rng.choice(ARG_GROUPS)
+                txns = [j for j, t in enumerate(TXNS) if 'STARBUCK' in t['description']]
+            else:
+                g = rng.choice(COLLISION_GROUPS)
+                txns = [rng.randrange(len(TXNS)) for _ in range(2)]
             for _ in range(rng.randint(2, 6)):
                 ops.append({'op': 'EVAL', 'expr': EXPRS.index(rng.choice(g)), 'txn': rng.choice(txns), 'rows': rng.random() < 0.5})
         else:
@@ -470,10 +544,28 @@ def gen_clock_history(rng):
     return ops
 
 
-def gen_history(rng, tier):
+def gen_arg_history(rng, i):
+    """Stratified over the run index: one argument-variation group, all members in order (next cycle: in reverse order)
+    on each of the transactions that tell them apart - whatever the seed, 180 consecutive runs have done every group both ways."""
+    k = i // 10
+    g = list(ARG_GROUPS[k % len(ARG_GROUPS)])
+    if (k // len(ARG_GROUPS)) % 2:
+        g.reverse()
+    ops = []
+    for t in [j for j, tx in enumerate(TXNS) if 'STARBUCK' in tx['description']]:
+        for e in g:
+            ops.append({'op': 'EVAL', 'expr': EXPRS.index(e), 'txn': t, 'rows': False})
+    return ops
+
+
+def gen_history(rng, tier, i=None):
     r0 = rng.random()
+    if i is not None and i % 10 == 7:
+        return gen_arg_history(rng, i)
     if r0 < 0.08:
         return gen_clock_history(rng)
+    if r0 < 0.18:
+        return gen_cross_history(rng)
     if r0 < 0.35:
         return gen_focus_history(rng)
     if r0 < 0.55:
@@ -1013,7 +1105,7 @@ def execute(ops, scratch, seed=None, i=None):
 
 def run_one(seed, i, tier, scratch):
     rng = util.rng_for(seed, ID, i)
-    ops = gen_history(rng, tier)
+    ops = gen_history(rng, tier, i)
     for op in ops:
         if op['op'] == 'LOAD':
             op['order'] = rng.choice(['transforms-first', 'transforms-first', 'rules-first'])
